@@ -50,6 +50,9 @@ class TransitionDipoleMoment(SelfAdjointOperator, BasisManaged):
         else:
             S1 = inv
         #S1 = scipy.linalg.inv(SS)
+        if numpy.iscomplexobj(SS) and not numpy.iscomplexobj(self._data):
+            # a unitary (complex) transformation leads out of real numbers
+            self._data = self._data.astype(numpy.complex128)
         for i in range(3):
             self._data[:,:,i] = numpy.dot(S1,numpy.dot(self._data[:,:,i],SS))
         
